@@ -126,6 +126,15 @@ func init() {
 		noteStub("protobuf Marshal/Unmarshal: opaque token for a deep copy of the message (round trip = identity)")
 		b, _ := args[0].([]value)
 		m := args[1].(iface)
+		if len(b) == 0 {
+			// empty input is the empty message
+			if pt, ok := m.t.Underlying().(*types.Pointer); ok {
+				if p, ok := m.v.(*value); ok && p != nil {
+					*p = zero(pt.Elem())
+				}
+			}
+			return iface{}
+		}
 		stored, ok := protoLookup(b)
 		if !ok {
 			return mkError(fr, "proto: cannot parse invalid wire-format data")
